@@ -102,7 +102,8 @@ class ThreadSched:
             self._tls.tid = tid
             try:
                 self._park(tid)
-                sys.settrace(self._tracer())
+                if self.prefixes:
+                    sys.settrace(self._tracer())
                 try:
                     self.results[tid] = fns[tid]()
                 except BaseException as e:  # noqa: BLE001 - fns catch themselves; this is the scheduler failing
